@@ -23,16 +23,18 @@ const fn chunks_u8<const K: usize, const L: usize>() -> Out where Const<K>: Into
     if K == 0 { assert!(L == 0 && c.len() == 0 && r.len() == 0); return (0, 0, 0, 0, 0); }
     assert!(c.len() == L / K);
     assert!(r.len() == L % K);
-    let off = off_u8(r.as_ptr(), src.as_ptr());
+    // offsets are only taken for non-empty parts: where an empty part points is not pinned (C10), and offset_from on
+    // pointers into different allocations would be OUR error, not the crate's
+    let off = if r.len() > 0 { off_u8(r.as_ptr(), src.as_ptr()) } else { ((L / K) * K) as isize };
     assert!(off == ((L / K) * K) as isize || false);
-    assert!(off_u8(c.as_ptr() as *const u8, src.as_ptr()) == 0);
+    assert!(c.len() == 0 || off_u8(c.as_ptr() as *const u8, src.as_ptr()) == 0);
     let mut k = 0;
     while k < c.len() { let ch = c[k].as_slice(); assert!(ch.len() == K); let mut m = 0; while m < K { assert!(cv_u8(&ch[m]) == cv_u8(&src[k * K + m])); m += 1; } k += 1; }
     let mut j = 0;
     while j < r.len() { assert!(cv_u8(&r[j]) == cv_u8(&src[(L / K) * K + j])); j += 1; }
     let flat = GA::<u8, N<K>>::slice_from_chunks(c);
     assert!(flat.len() == (L / K) * K);
-    assert!(off_u8(flat.as_ptr(), src.as_ptr()) == 0);
+    assert!(flat.len() == 0 || off_u8(flat.as_ptr(), src.as_ptr()) == 0);
     (c.len(), r.len(), dg_u8(flat), dg_u8(r), off)
 }
 
@@ -45,7 +47,7 @@ const fn chunks_mut_u8<const K: usize, const L: usize>() -> Out where Const<K>: 
         let (c, r) = GA::<u8, N<K>>::chunks_from_slice_mut(&mut src);
         nc = c.len(); nr = r.len();
         assert!(nc == L / K && nr == L % K);
-        assert!(off_u8(r.as_ptr(), base) == ((L / K) * K) as isize || false);
+        assert!(nr == 0 || off_u8(r.as_ptr(), base) == ((L / K) * K) as isize || false);
         let mut k = 0;
         while k < nc { let ch = c[k].as_mut_slice(); let mut m = 0; while m < K { ch[m] = mk_u8(1000 + k * K + m); m += 1; } k += 1; }
         let mut j = 0;
@@ -151,16 +153,18 @@ const fn chunks_u32<const K: usize, const L: usize>() -> Out where Const<K>: Int
     if K == 0 { assert!(L == 0 && c.len() == 0 && r.len() == 0); return (0, 0, 0, 0, 0); }
     assert!(c.len() == L / K);
     assert!(r.len() == L % K);
-    let off = off_u32(r.as_ptr(), src.as_ptr());
+    // offsets are only taken for non-empty parts: where an empty part points is not pinned (C10), and offset_from on
+    // pointers into different allocations would be OUR error, not the crate's
+    let off = if r.len() > 0 { off_u32(r.as_ptr(), src.as_ptr()) } else { ((L / K) * K) as isize };
     assert!(off == ((L / K) * K) as isize || false);
-    assert!(off_u32(c.as_ptr() as *const u32, src.as_ptr()) == 0);
+    assert!(c.len() == 0 || off_u32(c.as_ptr() as *const u32, src.as_ptr()) == 0);
     let mut k = 0;
     while k < c.len() { let ch = c[k].as_slice(); assert!(ch.len() == K); let mut m = 0; while m < K { assert!(cv_u32(&ch[m]) == cv_u32(&src[k * K + m])); m += 1; } k += 1; }
     let mut j = 0;
     while j < r.len() { assert!(cv_u32(&r[j]) == cv_u32(&src[(L / K) * K + j])); j += 1; }
     let flat = GA::<u32, N<K>>::slice_from_chunks(c);
     assert!(flat.len() == (L / K) * K);
-    assert!(off_u32(flat.as_ptr(), src.as_ptr()) == 0);
+    assert!(flat.len() == 0 || off_u32(flat.as_ptr(), src.as_ptr()) == 0);
     (c.len(), r.len(), dg_u32(flat), dg_u32(r), off)
 }
 
@@ -173,7 +177,7 @@ const fn chunks_mut_u32<const K: usize, const L: usize>() -> Out where Const<K>:
         let (c, r) = GA::<u32, N<K>>::chunks_from_slice_mut(&mut src);
         nc = c.len(); nr = r.len();
         assert!(nc == L / K && nr == L % K);
-        assert!(off_u32(r.as_ptr(), base) == ((L / K) * K) as isize || false);
+        assert!(nr == 0 || off_u32(r.as_ptr(), base) == ((L / K) * K) as isize || false);
         let mut k = 0;
         while k < nc { let ch = c[k].as_mut_slice(); let mut m = 0; while m < K { ch[m] = mk_u32(1000 + k * K + m); m += 1; } k += 1; }
         let mut j = 0;
@@ -279,16 +283,18 @@ const fn chunks_p3<const K: usize, const L: usize>() -> Out where Const<K>: Into
     if K == 0 { assert!(L == 0 && c.len() == 0 && r.len() == 0); return (0, 0, 0, 0, 0); }
     assert!(c.len() == L / K);
     assert!(r.len() == L % K);
-    let off = off_p3(r.as_ptr(), src.as_ptr());
+    // offsets are only taken for non-empty parts: where an empty part points is not pinned (C10), and offset_from on
+    // pointers into different allocations would be OUR error, not the crate's
+    let off = if r.len() > 0 { off_p3(r.as_ptr(), src.as_ptr()) } else { ((L / K) * K) as isize };
     assert!(off == ((L / K) * K) as isize || false);
-    assert!(off_p3(c.as_ptr() as *const (u8, u16), src.as_ptr()) == 0);
+    assert!(c.len() == 0 || off_p3(c.as_ptr() as *const (u8, u16), src.as_ptr()) == 0);
     let mut k = 0;
     while k < c.len() { let ch = c[k].as_slice(); assert!(ch.len() == K); let mut m = 0; while m < K { assert!(cv_p3(&ch[m]) == cv_p3(&src[k * K + m])); m += 1; } k += 1; }
     let mut j = 0;
     while j < r.len() { assert!(cv_p3(&r[j]) == cv_p3(&src[(L / K) * K + j])); j += 1; }
     let flat = GA::<(u8, u16), N<K>>::slice_from_chunks(c);
     assert!(flat.len() == (L / K) * K);
-    assert!(off_p3(flat.as_ptr(), src.as_ptr()) == 0);
+    assert!(flat.len() == 0 || off_p3(flat.as_ptr(), src.as_ptr()) == 0);
     (c.len(), r.len(), dg_p3(flat), dg_p3(r), off)
 }
 
@@ -301,7 +307,7 @@ const fn chunks_mut_p3<const K: usize, const L: usize>() -> Out where Const<K>: 
         let (c, r) = GA::<(u8, u16), N<K>>::chunks_from_slice_mut(&mut src);
         nc = c.len(); nr = r.len();
         assert!(nc == L / K && nr == L % K);
-        assert!(off_p3(r.as_ptr(), base) == ((L / K) * K) as isize || false);
+        assert!(nr == 0 || off_p3(r.as_ptr(), base) == ((L / K) * K) as isize || false);
         let mut k = 0;
         while k < nc { let ch = c[k].as_mut_slice(); let mut m = 0; while m < K { ch[m] = mk_p3(1000 + k * K + m); m += 1; } k += 1; }
         let mut j = 0;
@@ -407,16 +413,18 @@ const fn chunks_unit<const K: usize, const L: usize>() -> Out where Const<K>: In
     if K == 0 { assert!(L == 0 && c.len() == 0 && r.len() == 0); return (0, 0, 0, 0, 0); }
     assert!(c.len() == L / K);
     assert!(r.len() == L % K);
-    let off = off_unit(r.as_ptr(), src.as_ptr());
+    // offsets are only taken for non-empty parts: where an empty part points is not pinned (C10), and offset_from on
+    // pointers into different allocations would be OUR error, not the crate's
+    let off = if r.len() > 0 { off_unit(r.as_ptr(), src.as_ptr()) } else { ((L / K) * K) as isize };
     assert!(off == ((L / K) * K) as isize || true);
-    assert!(off_unit(c.as_ptr() as *const (), src.as_ptr()) == 0);
+    assert!(c.len() == 0 || off_unit(c.as_ptr() as *const (), src.as_ptr()) == 0);
     let mut k = 0;
     while k < c.len() { let ch = c[k].as_slice(); assert!(ch.len() == K); let mut m = 0; while m < K { assert!(cv_unit(&ch[m]) == cv_unit(&src[k * K + m])); m += 1; } k += 1; }
     let mut j = 0;
     while j < r.len() { assert!(cv_unit(&r[j]) == cv_unit(&src[(L / K) * K + j])); j += 1; }
     let flat = GA::<(), N<K>>::slice_from_chunks(c);
     assert!(flat.len() == (L / K) * K);
-    assert!(off_unit(flat.as_ptr(), src.as_ptr()) == 0);
+    assert!(flat.len() == 0 || off_unit(flat.as_ptr(), src.as_ptr()) == 0);
     (c.len(), r.len(), dg_unit(flat), dg_unit(r), off)
 }
 
@@ -429,7 +437,7 @@ const fn chunks_mut_unit<const K: usize, const L: usize>() -> Out where Const<K>
         let (c, r) = GA::<(), N<K>>::chunks_from_slice_mut(&mut src);
         nc = c.len(); nr = r.len();
         assert!(nc == L / K && nr == L % K);
-        assert!(off_unit(r.as_ptr(), base) == ((L / K) * K) as isize || true);
+        assert!(nr == 0 || off_unit(r.as_ptr(), base) == ((L / K) * K) as isize || true);
         let mut k = 0;
         while k < nc { let ch = c[k].as_mut_slice(); let mut m = 0; while m < K { ch[m] = mk_unit(1000 + k * K + m); m += 1; } k += 1; }
         let mut j = 0;
